@@ -102,3 +102,9 @@ def nontrivial(c, o):
 
 def key(c):
     return c["m"] + "|" + ",".join(c["p"])
+
+
+def generated(tier):
+    """source-derived obligations (G4 formulas): regenerated from /repo's current source text on every run"""
+    from ..translate.tables import obligations
+    return obligations("C11")
